@@ -934,23 +934,15 @@ Example ex_ctl_frame :
 Proof. vm_compute. split; [eauto|split; [lia|discriminate]]. Qed.
 
 (* ------------------------------------------------------------------------------------------------ *)
-(* Clause that is only partially covered *)
-
 (* C07: "start() re-raises only after the child has terminated".
-   Proved (every op sequence):
+   Proved for every op sequence:
    - the interrupted caller cancels the child's handle scope and moves to CStartJoin (GroupThms6.start_cancel_joins_child);
    - it stays in CStartJoin until one of its own handles is run (ctl_changes_only_when_acting);
    - its join future gets a value only in the step `AFinish child` in which the child's coroutine ends
      (GroupThms11.start_join_event_wakeup), and then the finished event is set and k_final child <> None
-     (GroupThms6.start_join_wakeup_means_child_finished, restated below).
-   MISSING: that the only other way to wake the caller is Task.cancel() on it, and that under AnyIO cancellation
-   this needs a cancel of the private, shielded join scope sc (or un-shielding it) - i.e. that
-   _deliver_cancellation never reaches the caller through another scope.  That needs the scope-tree invariant
-   `In t (s_tasks (scopes s x)) <-> k_cur (tasks s t) = Some x` (DESIGN I1) plus the walk of `deliver` over it.
-   The invariant is established in the C03/C04 development (TreeStep.reach_tree / DeliverAlive.TreeL.tl_task, for
-   op sequences satisfying their `op_ok`); these files may not be imported here, and re-proving it is a separate
-   ~1000-line walk. *)
-Theorem start_join_partial s t ch c e f v : reach s ->
-  k_ctl (tasks s t) = CStartJoin ch c e (Some f) -> f_st (futs s f) = FRes v ->
-  k_final (tasks s ch) <> None.
-Proof. intros R H1 H2. apply (GroupThms6.start_join_wakeup_means_child_finished s t ch c e f v R H1 H2). Qed.
+     (GroupThms6.start_join_wakeup_means_child_finished).
+   The remaining clause - no delivery of cancellation reaches the caller through another scope, so that the caller
+   is resumed only by the finished event - is proved in GroupThms13.v (the walk of the join predicate JP over
+   every operation, step_jr) and GroupThms14.v (start_join_resumed_only_by_finished_event, for runs whose prefix
+   lies in the op_ok domain of the C03/C05 development, which provides the scope-tree invariant
+   `In t (s_tasks (scopes s x)) <-> k_cur (tasks s t) = Some x` at the state in which the join begins). *)
